@@ -388,6 +388,33 @@ func (x *Exec) verifAPI(name string, fn *ssa.Function, args []Value) (Value, boo
 			}
 		}
 		return x.c64(0), true
+	case "WriteJunk":
+		// WriteJunk(p unsafe.Pointer, n int): overwrite n bytes at p with unconstrained values
+		// (bounds-checked against p's object); no forking for symbolic n.
+		p := x.asPtr(args[0])
+		n := args[1].(*smt.Term)
+		if n.IsConst() && n.Val == 0 {
+			return nil, true
+		}
+		if p.Obj == nil {
+			x.check(s.Eq(n, x.c64(0)), "memory", "write through nil pointer")
+			return nil, true
+		}
+		ls := x.objLSize(p.Obj)
+		end := s.Add(p.Off, n)
+		x.check(s.BAnd(s.Ule(p.Off, end), s.Ule(end, ls)), "memory", "native routine writes outside "+p.Obj.String())
+		if p.Obj.ReadOnly {
+			x.check(s.Eq(n, x.c64(0)), "memory", "native routine writes into read-only object")
+		}
+		maxN := x.maxLen(p, n, 1)
+		for i := 0; i < maxN; i++ {
+			var nv *smt.Term = x.junk(8)
+			if !n.IsConst() {
+				nv = s.Ite(s.Ult(x.c64(int64(i)), n), nv, x.byteIdx(p, i))
+			}
+			x.storeLeafP(p, i, 1, nv)
+		}
+		return nil, true
 	case "InPool":
 		// InPool(b []byte) bool: is the backing array currently owned by a sync.Pool?
 		sl := args[0].(Slice)
